@@ -58,7 +58,13 @@ const c07TextFam = gen.FAscii | gen.FHTML | gen.FMD | gen.FWide | gen.FNewline |
 const c07ValueFam = c07TextFam | gen.FSGR | gen.FNUL | gen.FInvalid | gen.FZero | gen.FCR
 
 func c07RandomItem(r *gen.R) c07Item {
-	switch r.Intn(23) {
+	switch r.Intn(24) {
+	case 23:
+		// encoding/json's own number type: a named string which encodes as the number literal it holds, and which the
+		// encoder refuses when it does not hold one
+		lit := gen.Pick(r, []string{"12.50", "0", "-3", "1e6", "12.50", "", "12 apples", "1.", "0x10"})
+		_, merr := stdjson.Marshal(stdjson.Number(lit))
+		return c07Item{Desc: fmt.Sprintf("json.Number(%q)", lit), item: stdjson.Number(lit), fails: merr != nil}
 	case 22:
 		a, b := r.Word(), r.Word()
 		return c07Item{Desc: fmt.Sprintf("item holding a nested table (%s, %s) which it renders from MarshalJSON and String", a, b), item: newNestedTableItem(a, b)}
